@@ -387,6 +387,12 @@ class LocationDB(object):
             foreign_offset = location_db.get_location_offset(foreign_loc_key)
             if foreign_names:
                 init_name = list(foreign_names)[0]
+                # Prefer a name already known here: the foreign location is
+                # then merged into the location owning it
+                for name in foreign_names:
+                    if self.get_name_location(name) is not None:
+                        init_name = name
+                        break
             else:
                 init_name = None
             loc_key = self.add_location(offset=foreign_offset, name=init_name,
